@@ -106,6 +106,12 @@ func genWriterLine(r *gen.Rand, i int, known map[string]byte, tainted map[string
 		}
 		p.Fields = append(p.Fields, PField{K: key, V: wVal(r, kind)})
 	}
+	if r.Chance(1, 4) {
+		// one key twice, the second time with any type (the later one wins when the types agree, otherwise the point is refused)
+		f := p.Fields[r.Intn(len(p.Fields))]
+		p.Fields = append(p.Fields, PField{K: f.K, V: wVal(r, wKinds[r.Intn(4)])})
+		l.clean = false
+	}
 	for _, f := range p.Fields {
 		if f.K != "time" {
 			l.others = true
